@@ -92,6 +92,35 @@ def check(run):
         cases.append(["new:0", "a%s:0:0" % T_, "a%s:0:0.1.1366104114" % T_, "a%s:0:0" % T_, "g%s:0:0" % T_, "g%s:0:1" % T_, "s%s:0" % T_])
         cases.append(["new:0", "a%s:0:0.1.1366104114" % T_, "a%s:0:0" % T_, "a%s:0:0.1.1366104114" % T_, "g%s:0:0" % T_, "g%s:0:1" % T_, "s%s:0" % T_,
                       "cp:1:0:cc", "a%s:1:0" % T_, "a%s:1:0.1.1366104114" % T_])
+    # values of EQUAL length whose CRC32C codes collide (the code is linear: flipping 32 bits somewhere and the 32 bits that follow
+    # by the matching amount leaves it unchanged): the difference sits at every position in turn - equality has to look at every
+    # element / byte although the hash codes agree; both orders of arrival, then the look-ups
+    def crc0(bs, st=0):
+        for b in bs:
+            st ^= b
+            for _ in range(8):
+                st = (st >> 1) ^ (0x82F63B78 if st & 1 else 0)
+        return st
+    for n in (2, 3, 5, 8, 9, 16, 33):
+        base = [rng.randrange(0, 1 << 32) for _ in range(n)]
+        for i in range(n - 1):
+            x = rng.randrange(1, 1 << 32)
+            sx = crc0(x.to_bytes(4, "little"))
+            other = list(base); other[i] ^= x; other[i + 1] ^= sx
+            a, b = ".".join(map(str, base)), ".".join(map(str, other))
+            for T_ in ("rl", "ql"):
+                cases.append(["new:0", "a%s:0:%s" % (T_, a), "a%s:0:%s" % (T_, b), "a%s:0:%s" % (T_, a), "a%s:0:%s" % (T_, b),
+                              "g%s:0:0" % T_, "g%s:0:1" % T_, "s%s:0" % T_])
+    for L in (8, 9, 20, 64, 70):
+        base = bytes(rng.randrange(256) for _ in range(L))
+        for i in sorted(j for j in {0, 1, L // 4, L // 2, L - 8} if 0 <= j <= L - 8):
+            x = rng.randrange(1, 1 << 32).to_bytes(4, "little")
+            sx = crc0(x).to_bytes(4, "little")
+            d = bytes(i) + x + sx + bytes(L - i - 8)
+            other = bytes(p ^ q for p, q in zip(base, d))
+            for T_ in ("nr", "ip"):
+                cases.append(["new:0", "a%s:0:%s" % (T_, T.xh(base)), "a%s:0:%s" % (T_, T.xh(other)), "a%s:0:%s" % (T_, T.xh(base)),
+                              "a%s:0:%s" % (T_, T.xh(other)), "g%s:0:0" % T_, "g%s:0:1" % T_, "s%s:0" % T_])
     # long strings (TXT/DNSKEY/RRSIG RDATA, long names, payloads): equal ones share an entry, ones that differ in a single byte - early,
     # around the 64th, or last - do not
     for L in (63, 64, 65, 66, 100, 255, 256, 1000, 4096):
